@@ -1,5 +1,6 @@
 import Drivers.Proto
 import St4sd.Model.Hash
+import St4sd.Model.HashFs
 /-!
 Model driver for property C16.
 
@@ -10,6 +11,9 @@ serialisations the model returns until every one of them is in the table).
 ops:
 * `world`: `{md5:[[pre,dig]…], bps:[[stage,name,exe]…], comps:[…], old:bool}` →
   `{strong:[{ser,hash}|null…], fuzzy:[…]}` through the DAG recursion `Hash.hashes`/`Hash.sers`;
+* `history`: `{md5, bps, comps:[… refs with loc:{kind:direct|produced, p, path}], fs:[[path, node]…],
+  ops:[{op:write|touch|remove|rename|reload,…}], paths:[…]}` → `{obs:[{strong, fuzzy, views}…]}`: one observation
+  before the first and after every operation (`Hash.states` / `Hash.hashesFs`), `views` = `Hash.view` of `paths`;
 * `ser`: `{image:str|null, args, exe, files:[…]}` → `{ser}` (`Hash.serialize`);
 * `tokens`: `{s}` → `{tokens}`; `subword`: `{pat, rep, s}` → `{out}`.
 -/
@@ -73,9 +77,71 @@ def outOne (ser hash : Option (List Char)) : Json :=
   | some s, some h => jobj [("ser", jchars s), ("hash", jchars h)]
   | _, _ => Json.null
 
+def parseLoc (j : Json) : Except String Loc := do
+  let kind ← getStr j "kind"
+  match kind with
+  | "direct" => return .direct (← getChars j "path")
+  | "produced" => return .produced (← getNat j "p") (← getChars j "path")
+  | _ => throw s!"unknown loc kind {kind}"
+
+def parseSRef (j : Json) : Except String SRef := do
+  return { abs := ← getChars j "abs", rel := ← getChars j "rel", method := ← getChars j "method",
+           fileRef := ← getChars j "fileRef", loc := ← parseLoc (← j.getObjVal? "loc") }
+
+def parseSComp (j : Json) : Except String SComp := do
+  let replica : Option Nat ← match j.getObjVal? "replica" with
+    | .ok Json.null => pure none
+    | .ok v => do pure (some (← v.getNat?))
+    | .error _ => pure none
+  let refs ← (← getArr j "refs").mapM parseSRef
+  let backend ← parseBackend (← j.getObjVal? "backend")
+  return { name := ← getChars j "name", stage := ← getNat j "stage", location := ← getChars j "location",
+           mtime := ← getNat j "mtime", replica := replica, exe := ← getChars j "exe",
+           args := ← getChars j "args", refs := refs, backend := backend }
+
+def parseNode (j : Json) : Except String Node := do
+  let kind ← getStr j "kind"
+  match kind with
+  | "file" => return .file (← getChars j "content") (← getNat j "mtime") (← getNat j "ino")
+  | "dir" => return .dir
+  | _ => throw s!"unknown node kind {kind}"
+
+def parseFsEntry (j : Json) : Except String (List Char × Node) := do
+  let a ← j.getArr?
+  match a.toList with
+  | [p, n] => return ((← p.getStr?).toList, ← parseNode n)
+  | _ => throw "fs entry must be [path, node]"
+
+def parseOp (j : Json) : Except String Op := do
+  let op ← getStr j "op"
+  match op with
+  | "write" => return .write (← getChars j "path") (← getChars j "content") (← getNat j "mtime") (← getNat j "ino")
+  | "touch" => return .touch (← getChars j "path") (← getNat j "mtime")
+  | "remove" => return .remove (← getChars j "path")
+  | "rename" => return .rename (← getChars j "a") (← getChars j "b")
+  | "reload" => return .reload
+  | _ => throw s!"unknown fs op {op}"
+
+def jview : Option (Option (List Char)) → Json
+  | none => Json.null
+  | some none => jstr "dir"
+  | some (some c) => jobj [("content", jchars c)]
+
 def handle (j : Json) : Except String Json := do
   let op ← getStr j "op"
   match op with
+  | "history" =>
+    let tab ← (← getArr j "md5").mapM parsePair
+    let bps ← (← getArr j "bps").mapM parseBp
+    let comps ← (← getArr j "comps").mapM parseSComp
+    let fs ← (← getArr j "fs").mapM parseFsEntry
+    let ops ← (← getArr j "ops").mapM parseOp
+    let paths ← getCharsList j "paths"
+    let md5 := tableMd5 tab
+    let side (s : Fs) (fuzzy : Bool) : Json :=
+      jarr (((sersFs md5 fuzzy bps s comps).zip (hashesFs md5 fuzzy bps s comps)).map fun (x, h) => outOne x h)
+    return jobj [("obs", jarr ((states fs ops).map fun s =>
+      jobj [("strong", side s false), ("fuzzy", side s true), ("views", jarr (paths.map fun p => jview (view s p)))]))]
   | "world" =>
     let tab ← (← getArr j "md5").mapM parsePair
     let bps ← (← getArr j "bps").mapM parseBp
